@@ -58,11 +58,13 @@ CHECKS = {
  "C20": dict(technique="runtime monitoring of embedding code: recording host functions, round-trip / range oracles over seeded boundary values by three routes, lent Box freed after the call with a magic-word liveness check, all in a forked child",
              text="Exploration: ~6 000 observations per quick run: round trips of every supported host type (three routes, plus the value the script sees), ~55 out-of-range / mistyped conversions that must be Err, ~50 calls of 14 registered functions with valid and invalid arity / kinds (direct, apply, map) observed by recording functions, 11 ways for a script to stash a lent reference and use it after the call.",
              note="Use-after-free of the lent object is observed through a magic word, the recording counter and process death (no ASan). Symbol -> String conversion is pinned as designed.", ref="DESIGN.md §5 C20"),
+ "C14": dict(technique="differential runtime monitoring of generated module graphs against a visibility / instantiate-once model; body evaluation counted by a host function the harness registers",
+             text="Exploration: seeded acyclic module graphs (2..8 files, overlapping private and provided spellings, all require modifiers, diamonds, contracted provides, importers assigning their alias of an imported name) and histories of requiring evaluations on one engine incl. hidden-name probes, boundary-contract probes and a compile-time failure; JIT on/off and STEEL_MODULE_INLINE on.",
+             note="Trusted: the Python visibility model and the tick table of the harness. cycles and dylib modules are not generated.", ref="DESIGN.md §5 C14"),
 }
 NOT_YET = "check not built yet in this session (planned in DESIGN.md §5); no claim is made"
 NA = {
  "C13": "not built: the reference hygienic expander and colliding-macro generator planned in DESIGN_plan.md §5 C13 were not implemented in the time available; the technique applies, no claim is made",
- "C14": "not built: the module-graph generator and visibility model planned in DESIGN_plan.md §5 C14 were not implemented in the time available; no claim is made (module *mode* of single scripts is exercised by C01/C02/C08/C09/C10/C11)",
 }
 man = {
  "version": 1,
